@@ -76,6 +76,7 @@ type Ctx struct {
 	NFuncs      int // functions inspected by rules (measured)
 	NSites      int // call sites / instructions matched by rules (measured)
 	fnSeen      map[*ssa.Function]bool
+	lockM *lockModel
 }
 
 func die(format string, a ...any) {
